@@ -10,7 +10,7 @@
    |V*|; nothing about reachability is taken from the implementation.  The only inputs that do not come
    from the caller's arguments are the list of maximal safe sequences (`safe_lists`) and the list
    `walks_to_fix`, both chosen by un-modelled algorithms; everything derived from them is modelled. *)
-From Coq Require Import List NArith ZArith QArith Bool Lia.
+From Coq Require Import List NArith ZArith QArith Qround Bool Lia.
 Import ListNotations.
 From FP Require Import Lin Blocks PathEnc.
 Local Close Scope Q_scope.
@@ -249,7 +249,10 @@ Record kfdc_inst := {
   c_int : bool;                      (* weight_type = int *)
   c_cons : list (list edge); c_cov : Q; c_opts : walk_opts;
   c_safe_lists : list (list edge); c_fix : list (list edge);
-  c_given : option (list Q) }.       (* optimization_options["given_weights"] *)
+  c_given : option (list Q);         (* optimization_options["given_weights"] *)
+  c_scale_free : bool }.             (* false = the code as it is (finding rep_cap_from_own_flow): cap = own flow value;
+                                        true = proposed_fixes/kfdc_scale_free_cap.diff: float weights use ceil(f(e)/f_min)
+                                        and the product helper gets ub = max(w_max, cap) *)
 
 Definition kfdc_ignore (I : kfdc_inst) : list edge := st_edges (c_graph I) ++ c_ignore I.
 Definition kept_edges (I : kfdc_inst) : list edge :=
@@ -261,12 +264,30 @@ Definition qtrunc (q : Q) : Q := inject_Z (Qnum q / Zpos (Qden q)).
 Definition kfdc_wmax (I : kfdc_inst) : Q :=
   (qnat (c_k I) * (if c_int I then qtrunc (max_flow I) else max_flow I))%Q.
 
+(* smallest positive non-ignored flow value (1 when there is none) *)
+Definition flow_unit (I : kfdc_inst) : Q :=
+  match filter (fun q => negb (Qle_bool q 0)) (map (flow_of I) (kept_edges I)) with
+  | [] => 1%Q
+  | q :: r => fold_left qmin r q
+  end.
+Definition qceil (q : Q) : Q := inject_Z (Qceiling q).
+Definition kfdc_rep (I : kfdc_inst) : list (edge * Q) :=
+  if c_scale_free I && negb (c_int I) then map (fun eq => (fst eq, qceil (snd eq / flow_unit I))) (c_flow I)
+  else if c_scale_free I then map (fun eq => (fst eq, qceil (snd eq))) (c_flow I)
+  else c_flow I.
+Definition kfdc_rep_default (I : kfdc_inst) : Q :=
+  if c_scale_free I && negb (c_int I) then qceil (kfdc_wmax I / flow_unit I)
+  else if c_scale_free I then qceil (kfdc_wmax I) else kfdc_wmax I.
+
 Definition kfdc_walk (I : kfdc_inst) : walk_inst :=
-  {| w_graph := c_graph I; w_k := c_k I; w_rep := c_flow I; w_rep_default := kfdc_wmax I;
+  {| w_graph := c_graph I; w_k := c_k I; w_rep := kfdc_rep I; w_rep_default := kfdc_rep_default I;
      w_cons := c_cons I; w_cov := c_cov I; w_opts := c_opts I;
      w_safe_lists := c_safe_lists I; w_fix := c_fix I |}.
 
 Definition pvar (e : edge) (i : N) : var := Pi (fst e) (snd e) i.
+(* the `ub` handed to add_integer_continuous_product_constraint *)
+Definition prod_ub (I : kfdc_inst) (e : edge) : Q :=
+  if c_scale_free I then qmax (kfdc_wmax I) (cap (kfdc_walk I) e) else kfdc_wmax I.
 
 (* which (edge, layer) pairs get the full bit-expansion product *)
 Definition prod_kind (I : kfdc_inst) (e : edge) (i : N) : N :=
@@ -278,13 +299,13 @@ Definition kfdc_cols (I : kfdc_inst) : list col :=
   flat_map (fun i => map (fun e => wcol_ (pvar e i) wm (c_int I)) (g_edges G)) (layers k) ++
   map (fun i => wcol_ (W i) wm (c_int I)) (layers k) ++
   flat_map (fun e => flat_map (fun i =>
-      if (prod_kind I e i =? 2)%N then intprod_cols (pvar e i) 0%Q wm (num_bits wm) else []) (layers k)) (kept_edges I).
+      if (prod_kind I e i =? 2)%N then intprod_cols (pvar e i) 0%Q (prod_ub I e) (num_bits (prod_ub I e)) else []) (layers k)) (kept_edges I).
 
 Definition kfdc_prod_rows (I : kfdc_inst) (e : edge) (i : N) : list row :=
   let wm := kfdc_wmax I in
   if (prod_kind I e i =? 0)%N then [mkrow [(pvar e i, 1%Q)] SEq 0%Q]
   else if (prod_kind I e i =? 1)%N then [mkrow [(pvar e i, 1%Q); (W i, (- (1))%Q)] SEq 0%Q]
-  else intprod_rows (evar e i) (W i) (pvar e i) 0%Q wm (num_bits wm).
+  else intprod_rows (evar e i) (W i) (pvar e i) 0%Q (prod_ub I e) (num_bits (prod_ub I e)).
 
 Definition kfdc_edge_rows (I : kfdc_inst) (e : edge) : list row :=
   flat_map (kfdc_prod_rows I e) (layers (c_k I)) ++
